@@ -68,7 +68,8 @@ type event struct {
 	AH       []string  `json:"ah"`   // hide given with the request (web)
 	ASI      int       `json:"asi"`  // sample index given with the request (web), 0 = none
 	ARel     string    `json:"arel"` // relative_percentages given with the request (web): "", "t", "f"
-	Text     string    `json:"text,omitempty"`
+	AG       string    `json:"ag"`   // granularity given with the request (web): "", "functions", "files"
+	Text     string    `json:"text"`
 }
 
 var run *vlib.Run
@@ -76,6 +77,19 @@ var run *vlib.Run
 var fnNames = []string{"a", "b", "c", "d", "ab"}
 
 // concrete profile of one source: all sources describe the same program (same mapping, functions, addresses)
+// the functions a and b share a file (files granularity merges them)
+func fileOf(f string) string {
+	switch f {
+	case "a", "b":
+		return "zz1.x"
+	case "c":
+		return "zz2.x"
+	case "d":
+		return "zz3.x"
+	}
+	return "zz4.x"
+}
+
 func fnIdx(f string) int {
 	for i, n := range fnNames {
 		if n == f {
@@ -89,7 +103,8 @@ func concrete(s *asrc, idx int, seed int64, drop, keep []string, unsym bool) *pr
 	m := vlib.AMap{Build: "B01", File: "exe", Start: 16, Size: 8}
 	fn := map[string]vlib.AFn{}
 	for i, n := range fnNames {
-		fn[n] = vlib.AFn{Name: n, Sys: n, File: fmt.Sprintf("zz%d.x", i)}
+		fn[n] = vlib.AFn{Name: n, Sys: n, File: fileOf(n)}
+		_ = i
 	}
 	var ss []vlib.ASample
 	for _, a := range s.Samples {
@@ -182,6 +197,20 @@ func randomLine(r *vlib.Rand, cli bool) line {
 		n := r.Intn(2)
 		return line{fmt.Sprintf("sample_index=%d", n), event{Ev: "assign", Opt: "si", N: n + 1}}
 	case k < 6:
+		if r.Intn(2) == 0 {
+			g := []string{"files", "functions"}[r.Intn(2)]
+			if cli {
+				return line{g, event{Ev: "assign", Opt: "g", Text: g}} // the flag -files / -functions
+			}
+			switch r.Intn(3) {
+			case 0:
+				return line{g + "=true", event{Ev: "assign", Opt: "g", Text: g}}
+			case 1:
+				// the bare name of a choice is not an assignment: the session answers "unknown config field"
+				return line{g, event{Ev: "noop"}}
+			}
+			return line{"granularity=" + g, event{Ev: "assign", Opt: "g", Text: g}}
+		}
 		b := r.Intn(2) == 0
 		return line{fmt.Sprintf("relative_percentages=%v", b), event{Ev: "assign", Opt: "rel", B: b}}
 	case k < 8:
@@ -242,7 +271,7 @@ func (s symRec) Symbolize(mode string, srcs plugin.MappingSources, p *profile.Pr
 			name := addrName[l.Address]
 			f := fns[name]
 			if f == nil {
-				f = &profile.Function{ID: uint64(len(p.Function) + 1), Name: name, SystemName: name, Filename: "zz.x"}
+				f = &profile.Function{ID: uint64(len(p.Function) + 1), Name: name, SystemName: name, Filename: fileOf(name)}
 				fns[name] = f
 				p.Function = append(p.Function, f)
 			}
@@ -464,6 +493,10 @@ func oneRun(id int, r *vlib.Rand) {
 		}
 		for _, l := range kept {
 			flags = append(flags, "-"+l.text)
+			if l.ev.Opt == "g" {
+				// the granularity flags are a radio group: the explicit default must go
+				common = []string{"-flat", "-nodefraction=0", "-edgefraction=0"}
+			}
 		}
 		return flags, kept, rep
 	}
@@ -509,6 +542,10 @@ func oneRun(id int, r *vlib.Rand) {
 			if r.Intn(3) == 0 {
 				e.ARel = []string{"t", "f"}[r.Intn(2)]
 				q.Set("rel", e.ARel)
+			}
+			if r.Intn(4) == 0 {
+				e.AG = []string{"files", "functions"}[r.Intn(2)]
+				q.Set("g", e.AG)
 			}
 			reqs = append(reqs, line{"/top?" + q.Encode(), e})
 		}
@@ -658,5 +695,5 @@ func main() {
 	for i := 0; i < n; i++ {
 		oneRun(i, r)
 	}
-	run.Finish("whole runs of driver.PProf observed at the plug-in boundaries: 1-3 sources and 0-2 -base or -diff_base sources (each failing with probability 1/5), profile-level drop/keep frame rules, sources that are symbolized or address-only (the names then come from the Symbolizer plug-in, before the drop rules apply), x command-line mode, interactive sessions of 1-5 lines (focus / ignore / hide / show / sample_index / relative_percentages assignments, top / traces reports with per-command arguments, rejected and ignored lines) or a web server answering /top requests with per-request options, concretised with varying id layouts; every boundary event validated by TLC against the machine of Pprof.tla; non-trivial = distinct (mode, sources, lines)")
+	run.Finish("whole runs of driver.PProf observed at the plug-in boundaries: 1-3 sources and 0-2 -base or -diff_base sources (each failing with probability 1/5), profile-level drop/keep frame rules, sources that are symbolized or address-only (the names then come from the Symbolizer plug-in, before the drop rules apply), x command-line mode, interactive sessions of 1-5 lines (focus / ignore / hide / show / granularity / sample_index / relative_percentages assignments, top / traces reports with per-command arguments, rejected and ignored lines) or a web server answering /top requests with per-request options, concretised with varying id layouts; every boundary event validated by TLC against the machine of Pprof.tla; non-trivial = distinct (mode, sources, lines)")
 }
